@@ -336,6 +336,7 @@ class Engine:
         s.npruned = 0
         s.nknown = 0
         s.nnl = 0
+        s.nprobe = 0
 
     # ------------------------------------------------------------------ solver
     def _sync(s, pc):
@@ -477,8 +478,43 @@ class Engine:
                 return True, st.model
         r, m = s.query(st, cond)
         if r == 'unknown':
+            pm = s.probe(st, cond)
+            if pm is not None:
+                return True, pm
             raise Inconclusive('solver returned unknown')
         return r == 'sat', m
+
+    def probe(s, st, cond, tries=24):
+        """the solver gave up: look for a satisfying assignment of pc + cond among a few random values (can only answer 'sat')"""
+        import random
+        cons, rel = s._slice(st, [cond])
+        allv = {}
+        for c in cons + [cond]:
+            for vid, var in free_vars(c):
+                allv[vid] = var
+        rnd = random.Random(len(cons) * 7919 + len(allv))
+        for k in range(tries):
+            vals = dict(st.model.vals) if st.model is not None else {}
+            for vid, var in allv.items():
+                if z3.is_bv(var):
+                    w = var.size()
+                    choice = rnd.choice([0, 1, (1 << w) - 1, 1 << (w - 1), rnd.getrandbits(w), rnd.getrandbits(w), rnd.getrandbits(min(w, 8))])
+                    vals[vid] = (var, z3.BitVecVal(choice, w))
+                elif z3.is_real(var):
+                    vals[vid] = (var, z3.RealVal(rnd.choice([0, 1, -1, rnd.randint(-100, 100), rnd.randint(-1000, 1000)])))
+                else:
+                    break
+            else:
+                pm = PModel(vals)
+                ok = True
+                for c in cons + [cond]:
+                    if not z3.is_true(pm.eval(c, True)):
+                        ok = False
+                        break
+                if ok:
+                    s.nprobe += 1
+                    return pm
+        return None
 
     def assume(s, st, cond, model=None):
         if cond is True:
@@ -1912,8 +1948,19 @@ def _pow(s, st, a, ins):
     raise Inconclusive('libm pow on a symbolic argument')
 
 
+_UF = {}
+
+
 def _libm_unsupported(name):
     def f(s, st, a, ins):
+        if s.o.get('libm_uf') and not all(isinstance(x, (float, int)) for x in a) and all(not isinstance(x, int) for x in a):
+            # an uninterpreted but deterministic function of its (real) arguments: enough for history-independence claims
+            key = (name, len(a))
+            fn = _UF.get(key)
+            if fn is None:
+                fn = z3.Function('libm_' + name, *([z3.RealSort()] * (len(a) + 1)))
+                _UF[key] = fn
+            return fn(*[realv(x) for x in a])
         if all(isinstance(x, (float, int)) for x in a):
             fn = getattr(math, name)
             try:
@@ -1928,8 +1975,25 @@ def _libm_unsupported(name):
     return f
 
 
-for _n in ('exp', 'log', 'ldexp', 'sin', 'cos', 'tan', 'atan', 'log1p', 'expm1', 'fmod', 'log2', 'log10', 'cbrt'):
+for _n in ('exp', 'log', 'sin', 'cos', 'tan', 'atan', 'log1p', 'expm1', 'fmod', 'log2', 'log10', 'cbrt'):
     BUILTINS['@' + _n] = _libm_unsupported(_n)
+
+
+@builtin('@ldexp')
+def _ldexp(s, st, a, ins):
+    x, k = a
+    if isinstance(k, int):
+        k = sgn(k, 32)
+    else:
+        raise Inconclusive('ldexp with symbolic exponent')
+    if isinstance(x, float):
+        try:
+            return math.ldexp(x, k)
+        except OverflowError:
+            return float('inf')
+    from fractions import Fraction
+    f = Fraction(2) ** k
+    return x * z3.RealVal(str(f.numerator) + '/' + str(f.denominator))
 
 
 @builtin('@floor')
@@ -2175,7 +2239,10 @@ def _assert(s, st, a, ins):
                 if ok2:
                     m = m2
         s.report(st, 'assert', msg, z3.Not(c), m, label=msg)
-        okn, mn = s.may(st, c)
+        try:
+            okn, mn = s.may(st, c)
+        except Inconclusive:
+            raise PathEnd('abort')      # violation recorded; whether the path can continue is undecided, so it ends here
         if not okn:
             raise PathEnd('abort')
         s.assume(st, c, mn)
